@@ -214,6 +214,81 @@ Proof. rewrite gen_spin_range_half, spin_range_false_spec. reflexivity. Qed.
 Lemma gen_spin_range_total s2 nz : exists l, gen_create_spin_range 2 (spin_fuel s2) (Z.of_nat s2) nz = Ok l.
 Proof. rewrite gen_spin_range_half. destruct (spin_range_total s2 nz) as [l ->]. now exists l. Qed.
 
+(* ---------------------------------------------------------------- list_decay_chain_ids: a chain of parent links *)
+Fixpoint chain_ok (t : rtopo) (l : list Z) : Prop :=
+  match l with
+  | [] => False
+  | a :: r => match r with
+              | [] => gen_get_parent_id t a = Ok None
+              | b :: _ => gen_get_parent_id t a = Ok (Some b) /\ chain_ok t r
+              end
+  end.
+
+Lemma gen_chain_loop_spec t s0 : forall (fuel : nat) acc cur res c',
+  gen_list_decay_chain_ids_loop1 fuel t s0 acc (Some cur) = Ok (res, c') ->
+  c' = None /\ exists tail, res = acc ++ cur :: tail /\ chain_ok t (cur :: tail).
+Proof.
+  induction fuel as [|f IH]; intros acc cur res c' H; [discriminate|].
+  cbn [gen_list_decay_chain_ids_loop1] in H.
+  destruct (gen_get_parent_id t cur) as [[p|]|] eqn:Hp; cbn [bind] in H; [| |discriminate].
+  - destruct (IH _ _ _ _ H) as (-> & tail & -> & Hc). split; [reflexivity|].
+    exists (p :: tail). rewrite <- app_assoc. split; [reflexivity|].
+    cbn [chain_ok]. split; [exact Hp|exact Hc].
+  - destruct f as [|f']; [discriminate|]. cbn [gen_list_decay_chain_ids_loop1] in H.
+    injection H as <- <-. split; [reflexivity|]. exists []. split; [reflexivity|exact Hp].
+Qed.
+
+Theorem gen_decay_chain_links fuel t s l :
+  gen_list_decay_chain_ids fuel t s = Ok l -> exists tail, l = s :: tail /\ chain_ok t l.
+Proof.
+  unfold gen_list_decay_chain_ids. destruct (gen_assert_isobar_topology t); [|discriminate]. cbn [bind].
+  destruct (gen_list_decay_chain_ids_loop1 fuel t s [] (Some s)) as [[res c']|] eqn:H; [|discriminate].
+  cbn [bind]. intros [= <-]. destruct (gen_chain_loop_spec _ _ _ _ _ _ _ H) as (_ & tail & -> & Hc).
+  exists tail. split; [reflexivity|exact Hc].
+Qed.
+
+(* more fuel never changes a result *)
+Lemma gen_chain_loop_mono t s0 : forall (fuel : nat) acc cur r,
+  gen_list_decay_chain_ids_loop1 fuel t s0 acc cur = Ok r ->
+  gen_list_decay_chain_ids_loop1 (S fuel) t s0 acc cur = Ok r.
+Proof.
+  induction fuel as [|f IH]; intros acc cur r H; [discriminate|].
+  cbn [gen_list_decay_chain_ids_loop1] in H.
+  change (gen_list_decay_chain_ids_loop1 (S (S f)) t s0 acc cur) with
+    (match cur with
+     | Some c => let parent_list := acc ++ [c] in
+                 bind (gen_get_parent_id t c) (fun t2_ => let current_id := t2_ in
+                   gen_list_decay_chain_ids_loop1 (S f) t s0 parent_list current_id)
+     | None => Ok (acc, cur)
+     end).
+  destruct cur as [c|]; [|exact H].
+  cbv zeta in *. destruct (gen_get_parent_id t c) as [q|]; [|discriminate]. cbn [bind] in *.
+  apply IH. exact H.
+Qed.
+
+Theorem gen_decay_chain_fuel_irrelevant t s l : forall fuel fuel',
+  (fuel <= fuel')%nat -> gen_list_decay_chain_ids fuel t s = Ok l -> gen_list_decay_chain_ids fuel' t s = Ok l.
+Proof.
+  intros fuel fuel' Hle. induction Hle as [|m Hle IH]; [auto|].
+  intros H. specialize (IH H). unfold gen_list_decay_chain_ids in *.
+  destruct (gen_assert_isobar_topology t); [|discriminate]. cbn [bind] in *.
+  destruct (gen_list_decay_chain_ids_loop1 m t s [] (Some s)) as [r|] eqn:E; [|discriminate].
+  rewrite (gen_chain_loop_mono _ _ _ _ _ _ E). exact IH.
+Qed.
+
+(* __get_boost_chain_ids = the decay chain reversed, without the initial state *)
+Theorem gen_boost_chain_is_reversed_decay_chain fuel t s l :
+  gen_get_boost_chain_ids fuel t s = Ok l ->
+  exists chain i0, gen_list_decay_chain_ids fuel t s = Ok chain /\
+                   topo_incoming_edge_ids t = [i0] /\ py_remove i0 (rev chain) = Ok l.
+Proof.
+  unfold gen_get_boost_chain_ids.
+  destruct (gen_list_decay_chain_ids fuel t s) as [chain|]; [|discriminate]. cbn [bind].
+  destruct (topo_incoming_edge_ids t) as [|i0 [|i1 r]]; try discriminate. cbn [py_next_iter bind].
+  destruct (py_remove i0 (rev chain)) as [l'|] eqn:E; [|discriminate]. cbn [bind]. intros [= <-].
+  exists chain, i0. repeat split; auto.
+Qed.
+
 (* ---------------------------------------------------------------- agreement with the hand model Kin.v on given topologies *)
 Definition rb (r : res bool) (b : bool) : bool := res_eqb Bool.eqb r (Ok b).
 Definition rl (r : res (list Z)) (l : list Z) : bool := res_eqb Kin.lZ_eqb r (Ok l).
